@@ -66,6 +66,92 @@ PREREQ = {
 }
 
 
+def perturb_canon(c, r):
+    """A NEIGHBOUR of a literal argument value: same type and shape, slightly different content (possibly an
+    invalid one). None when nothing sensible can be done."""
+    import copy
+    if isinstance(c, bool):
+        return not c
+    if isinstance(c, int):
+        return r.choice([c + 1, max(0, c - 1), 0])
+    if isinstance(c, str):
+        pool = [x for x in ["all", "linear", "star", "cycle", "T", "Q", "ladder", "E", "H", "nope"] if x != c]
+        return r.choice(pool) if len(c) < 8 and c.isalpha() else c[::-1]
+    if not isinstance(c, dict):
+        return None
+    c = copy.deepcopy(c)
+    t = c.get("t")
+    if t in ("list", "tuple"):
+        v = c["v"]
+        if not v:
+            return None
+        if all(isinstance(x, int) and not isinstance(x, bool) for x in v):
+            how = r.randrange(3)
+            if how == 0 and len(v) > 1:
+                v.reverse()
+            elif how == 1:
+                i = r.randrange(len(v))
+                v[i] = max(0, v[i] + r.choice([-1, 1]))
+            else:
+                v.append(v.pop(0))
+            return c
+        i = r.randrange(len(v))
+        nv = perturb_canon(v[i], r)
+        if nv is None:
+            return None
+        v[i] = nv
+        return c
+    if t == "dict":
+        items = c["v"]
+        if items and all(isinstance(k, str) for k, _ in items):
+            if r.random() < 0.6:      # a malformed outcome key, never in first position
+                nb = len(items[0][0])
+                bad = r.choice(["0x" + "1" * max(0, nb - 2), "2" * max(1, nb), "ab"])
+                items.insert(r.randint(1, len(items)), [bad, 7])
+            else:
+                i = r.randrange(len(items))
+                items[i][1] = perturb_canon(items[i][1], r) if isinstance(items[i][1], int) else items[i][1]
+            return c
+        return None
+    if t == "fake":
+        nv = perturb_canon(c["counts"], r)
+        if nv is None:
+            return None
+        c["counts"] = nv
+        return c
+    if t == "qc":
+        ops = c["ops"]
+        par = [i for i, o in enumerate(ops) if o[1]]
+        if par and r.random() < 0.7:          # same gate sequence, another parameter value
+            o = ops[r.choice(par)]
+            k = round(float(o[1][0]["r"]) / Lt.HALF_PI) if isinstance(o[1][0], dict) and o[1][0].get("t") == "float" else 0
+            o[1][0] = Lt.flt(Lt.HALF_PI * ((k + r.randrange(1, 4)) % 4))
+            return c
+        if ops and r.random() < 0.5:
+            o = ops[r.randrange(len(ops))]
+            if len(o[2]) == 1 and c["nq"] > 1 and not o[3]:
+                o[2] = [(o[2][0] + 1) % c["nq"]]
+                return c
+        ops.append(["x", [], [r.randrange(max(1, c["nq"]))], []])
+        return c
+    if t == "nd":
+        if "v" in c and c["v"] and c["dt"][0] in "iub":
+            i = r.randrange(len(c["v"]))
+            c["v"][i] = 1 - c["v"][i] if c["v"][i] in (0, 1) else 0
+            return c
+        return None
+    if t == "obj":
+        attrs = [a for a in c["a"] if isinstance(a[1], dict) and a[1].get("t") == "nd"]
+        if attrs:
+            a = r.choice(attrs)
+            nv = perturb_canon(a[1], r)
+            if nv is not None:
+                a[1] = nv
+                return c
+        return None
+    return None
+
+
 DERIVED_ATTRS = {("Graph", "num_vertices"), ("Stabilizer", "num_qubits"), ("CircuitResult", "num_qubits")}
 
 
@@ -256,14 +342,15 @@ class Generator:
                 R[q][g] = S[q][g] = 0
         return R, S, ph
 
-    def need_qc(self, ex, n, allow_invalid=True):
+    def need_qc(self, ex, n, allow_invalid=True, extended=0.3):
         r = self.rng
         if r.random() < self.cfg["p_reuse"]:
             c = self._slots(ex, lambda m: m["tag"] == "qc" and m["info"].get("nq") == n)
             if c:
                 return self.ref(r.choice(c))
         bad = allow_invalid and r.random() < self.cfg["p_invalid"]
-        return self.lit(Lt.qc(n, Lt.random_clifford_ops(r, n, r.randint(0, 10), non_clifford=bad)))
+        return self.lit(Lt.qc(n, Lt.random_clifford_ops(r, n, r.randint(0, 10), non_clifford=bad,
+                                                        extended=r.random() < extended)))
 
     def need_graph(self, ex, n):
         r = self.rng
@@ -279,11 +366,23 @@ class Generator:
                               dtype or r.choice(["int8", "int64", "uint8"])))
 
     def _counts(self, nbits, k=None):
+        """outcome dictionary as a backend returns it; sometimes with register-separating blanks in the keys (legal),
+        sometimes (failing requests) with one malformed key that is NOT the first one"""
         r = self.rng
         k = k or r.randint(1, 4)
+        blanks = nbits >= 2 and r.random() < 0.15
+        cut = r.randrange(1, nbits) if blanks else None
         d = {}
         for _ in range(k):
-            d["".join(r.choice("01") for _ in range(nbits))] = r.randint(1, 200)
+            key = "".join(r.choice("01") for _ in range(nbits))
+            if blanks:
+                key = key[:cut] + " " + key[cut:]
+            d[key] = r.randint(1, 200)
+        if r.random() < self.cfg["p_invalid"] * 0.6:
+            bad = r.choice(["0x" + "1" * max(0, nbits - 2), "2" * nbits, "1" * max(1, nbits - 1) if nbits > 1 else "", "ab"])
+            items = list(d.items())
+            items.insert(r.randint(1, len(items)), (bad, r.randint(1, 50)))
+            d = dict(items)
         return d
 
     # ------------------------------------------------------------------ call recipes
@@ -305,7 +404,7 @@ class Generator:
         conn = self._conn(n)
         if r.random() < self.cfg["p_invalid"] * 0.5:
             n = r.choice([1, 7])
-        first = self.need_qc(ex, n) if op.endswith("compress_preparation_circuit") else self.need_stab(ex, n, pre)
+        first = self.need_qc(ex, n, extended=0.6) if op.endswith("compress_preparation_circuit") else self.need_stab(ex, n, pre)
         if conn == "all" and r.random() < 0.3:
             return self._call(op, [first])
         if r.random() < 0.3:
@@ -397,8 +496,8 @@ class Generator:
                                   [self.ref(f["id"])], [["full_hilbert_space", full]])
         if which < 0.56:
             nb = r.randint(1, 5)
-            args = [self.lit(Lt.dct(list(self._counts(nb).items())))]
-            if r.random() < 0.5:
+            args = [self.lit(Lt.dct(list(self._counts(nb, r.randint(2, 5)).items())))]
+            if r.random() < 0.75:
                 args.append(self.lit(Lt.lst(r.sample(range(nb), r.randint(1, nb)))))
             return self._call("tomo.CircuitResult", args)
         if which < 0.59:
@@ -739,7 +838,9 @@ class Generator:
         if kind == "qc":
             nq, nops = hint
             m = r.choice(["gate", "gate", "gate", "clear", "phase", "measure_all", "set_md", "set_name"]
-                         + (["del_data"] if nops > 0 else []))
+                         + (["del_data", "set_param", "set_param"] if nops > 0 else []))
+            if m == "set_param":
+                return m, {"k": r.randrange(8), "v": Lt.HALF_PI * r.randrange(4)}
             if m == "gate":
                 if nq >= 2 and r.random() < 0.4:
                     return m, {"g": r.choice(["cx", "cz"]), "q": r.sample(range(nq), 2)}
@@ -992,7 +1093,7 @@ class Generator:
                 again = dict(call)
                 again["id"] = self._id()
                 more = [self._after_call(again, rounds - 1)] if rounds > 1 else []
-                return receiver_queries(ex2) + [again] + receiver_queries(ex2) + more
+                return receiver_queries(ex2) + self._neighbour_calls(call) + [again] + receiver_queries(ex2) + more
             out = []
             for _ in range(r.choice([1, 1, 2])):
                 path, kind, hint = r.choice(cands)
@@ -1000,6 +1101,7 @@ class Generator:
                 if mut is not None:
                     out.append({"id": self._id(), "kind": "mutate", "target": {"ref": sid, "path": path},
                                 "mut": mut, "params": params})
+            out += self._neighbour_calls(call)
             again = dict(call)
             again["id"] = self._id()
             out.append(again)
@@ -1014,6 +1116,50 @@ class Generator:
                     out += self.gen_consumers(ex2, A["ref"], 2)
             return out
         return after
+
+    def _neighbour_calls(self, call):
+        """Between 'disturb' and 'ask again': the same op with NEIGHBOURING argument values (one or two literal
+        arguments slightly changed, possibly into something invalid). A memo whose key is coarser than the argument
+        value, a 'last request' shortcut, or a marker that a failing call leaves behind shows on the way back."""
+        import copy
+        r = self.rng
+        if r.random() < 0.25:
+            return []
+        out = []
+        special = None
+        if call["op"] == "tomo.CircuitResult" and len(call.get("args", [])) == 2 and all("lit" in A for A in call["args"]):
+            # outcome counts + qubit selection: the neighbour that matters is "another selection of the same register,
+            # failing on a LATER key" (per-selection state that a failing pass leaves half rebuilt)
+            counts, sel = copy.deepcopy(call["args"][0]["lit"]), copy.deepcopy(call["args"][1]["lit"])
+            keys = [k for k, _ in counts.get("v", [])] if isinstance(counts, dict) else []
+            if keys and isinstance(sel, dict) and sel.get("v"):
+                nb_len = len(keys[0].replace(" ", ""))
+                other = r.sample(range(nb_len), min(nb_len, len(sel["v"])))
+                if other == sel["v"] and len(other) > 1:
+                    other.reverse()
+                sel["v"] = other
+                if r.random() < 0.8:
+                    counts["v"].insert(r.randint(1, len(counts["v"])), [r.choice(["0x" + "1" * max(0, nb_len - 2), "2" * nb_len]), 5])
+                special = copy.deepcopy(call)
+                special["args"] = [{"lit": counts}, {"lit": sel}]
+        for _ in range(r.choice([1, 2, 2]) if special is None else r.choice([0, 1])):
+            nb = copy.deepcopy(call)
+            nb["id"] = self._id()
+            slots = [A for A in nb.get("args", []) + [a for _, a in nb.get("kw", [])] if "lit" in A]
+            if not slots:
+                break
+            changed = False
+            for A in r.sample(slots, min(len(slots), r.choice([1, 1, 2, len(slots), len(slots)]))):
+                nv = perturb_canon(A["lit"], r)
+                if nv is not None:
+                    A["lit"] = nv
+                    changed = True
+            if changed:
+                out.append(nb)
+        if special is not None:         # last, so that the original call comes right after it
+            special["id"] = self._id()
+            out.append(special)
+        return out
 
     # ------------------------------------------------------------------ scripted batches
     def _script_k5(self, opname):
